@@ -67,6 +67,11 @@ def all_and_lambda(ctx):
         ('try:\n    __all__ = ["exported_name"]\nexcept Exception:\n    pass\nexported_name = 1\nhidden_name = exported_name\nprint(hidden_name, hidden_name)\n', ['exported_name']),
         ('import sys\nif sys.version_info >= (3,):\n    __all__ = ["exported_name"]\nelse:\n    __all__ = ["exported_name", "legacy_name"]\nexported_name = legacy_name = 1\nprint(legacy_name, legacy_name)\n', ['exported_name', 'legacy_name']),
         ('with some_context():\n    __all__ = ["exported_name"]\nexported_name = 1\nhidden_name = exported_name\nprint(hidden_name, hidden_name)\n', ['exported_name']),
+        # several literal lists: a name listed in any of them belongs to the interface (alternative branches, a later rebinding)
+        ('import sys\nif sys.version_info < (3,):\n    __all__ = ["legacy_name"]\nelse:\n    __all__ = ["exported_name"]\nexported_name = legacy_name = 1\nprint(legacy_name, legacy_name, exported_name, exported_name)\n', ['exported_name', 'legacy_name']),
+        ('try:\n    __all__ = ["first_name"]\nexcept NameError:\n    __all__ = ["second_name"]\nfirst_name = second_name = 1\nprint(first_name, first_name, second_name, second_name)\n', ['first_name', 'second_name']),
+        ('__all__ = ["first_name"]\n__all__ = ["second_name"]\nfirst_name = second_name = 1\nprint(first_name, first_name, second_name, second_name)\n', ['first_name', 'second_name']),
+        ('__all__ = ["first_name"]\n__all__: list = ["second_name"]\n__all__ += ["third_name"]\nfirst_name = second_name = third_name = 1\nprint(first_name, first_name, second_name, second_name, third_name, third_name)\n', ['first_name', 'second_name', 'third_name']),
     ]
     for src, must in cases:
         opts = dict(c02.ALL_OFF)
